@@ -421,15 +421,17 @@ impl expr::Expr
 
 				if hierarchy_level == 0 && hierarchy.len() == 1
 				{
+					// A parameter or local variable shadows
+					// a built-in function of the same name
+					if let Ok(local_value) = ctx.get_local(&hierarchy[0])
+					{
+						return Ok(local_value);
+					}
+
 					if let Some(_) = expr::resolve_builtin_fn(&hierarchy[0])
 					{
 						return Ok(expr::Value::ExprBuiltInFunction(
 							hierarchy[0].clone()));
-					}
-
-					if let Ok(local_value) = ctx.get_local(&hierarchy[0])
-					{
-						return Ok(local_value);
 					}
 				}
 
